@@ -134,7 +134,7 @@ pub fn run_c15(cfg: &Cfg) -> i32 {
             let _ = initial.apply(&payload);
         }
         let before = initial.clone();
-        let script = Script { running: e2e::running_config(&managed), faults: vec![], fail_connections: vec![], ephemeral_name: "bgpfu".into(), chunk: 0 };
+        let script = Script { running: e2e::running_config(&managed), faults: vec![], fail_connections: vec![], ephemeral_name: "bgpfu".into(), chunk: 0, slow_commit: vec![] };
         let (run, shared) = rt.block_on(async {
             let j = FakeJunos::start(script, initial).await.expect("fake junos");
             let run = e2e::run_agent(j.port, irr.port(), 0, &["-v"], &[], Duration::from_secs(25)).await;
@@ -258,7 +258,7 @@ pub fn run_l2(cfg: &Cfg, prop: L2) -> i32 {
         let mut managed: BTreeMap<String, (String, Option<Expr>)> = BTreeMap::new();
         let names = ["fltr-a", "fltr-b", "fltr-c", "fltr-d", "fltr-e", "fltr-f", "fltr-g"];
         let history_json: std::cell::RefCell<Vec<Value>> = std::cell::RefCell::new(Vec::new());
-        let script0 = Script { running: String::new(), faults: vec![], fail_connections: vec![], ephemeral_name: "bgpfu".into(), chunk: 0 };
+        let script0 = Script { running: String::new(), faults: vec![], fail_connections: vec![], ephemeral_name: "bgpfu".into(), chunk: 0, slow_commit: vec![] };
         let mut eph = Config::default();
         'steps: for step in 0..steps {
             // evolve the managed set
@@ -551,7 +551,7 @@ pub fn run_c20_agent(cfg: &Cfg) -> i32 {
         let to_file = r.chance(1, 3);
         let logfile = std::env::temp_dir().join(format!("vh-agent-log-{}-{idx}.log", std::process::id()));
         let managed = vec![("fltr-0".to_string(), "AS65000".to_string())];
-        let script = Script { running: e2e::running_config(&managed), faults: vec![], fail_connections: vec![outcome == "peer-drops"], ephemeral_name: "bgpfu".into(), chunk: 0 };
+        let script = Script { running: e2e::running_config(&managed), faults: vec![], fail_connections: vec![outcome == "peer-drops"], ephemeral_name: "bgpfu".into(), chunk: 0, slow_commit: vec![] };
         // unusual but plausible file layouts: bundles that contain the private key
         let bundle = std::env::temp_dir().join(format!("vh-bundle-{}-{idx}.pem", std::process::id()));
         let cat = |files: &[&str]| -> String {
@@ -638,6 +638,8 @@ pub fn run_c20_agent(cfg: &Cfg) -> i32 {
 struct DaemonObs {
     /// virtual seconds (since daemon start) at which each connection was accepted
     accepts: Vec<f64>,
+    /// virtual seconds at which each connection ended (None = still open at the end)
+    closes: Vec<Option<f64>>,
     logged_delays: Vec<u64>,
     exit: Option<i32>,
     exit_at: Option<f64>,
@@ -648,7 +650,7 @@ struct DaemonObs {
 
 /// Run the daemon under the dilation shim. `outcomes[k]` = does connection k succeed?
 /// `signals` = (virtual second, signal) to send. Ends at `end_at` virtual seconds (SIGKILL if still alive).
-fn run_daemon(k: f64, period: u64, outcomes: &[bool], signals: &[(f64, i32)], end_at: f64) -> Result<DaemonObs, String> {
+fn run_daemon(k: f64, period: u64, outcomes: &[bool], signals: &[(f64, i32)], end_at: f64, slow: &[(usize, f64)]) -> Result<DaemonObs, String> {
     let rt = rt();
     let irr = Server::start(crate::c04::simple_db(1), Faults::default()).map_err(|e| format!("irrd: {e}"))?;
     let target = std::env::var("VH_TARGET").unwrap_or_else(|_| "/verif/target".into());
@@ -657,7 +659,8 @@ fn run_daemon(k: f64, period: u64, outcomes: &[bool], signals: &[(f64, i32)], en
         return Err("dilate.so not built".into());
     }
     let fail: Vec<bool> = outcomes.iter().map(|s| !*s).chain(std::iter::repeat(true).take(64)).collect();
-    let script = Script { running: e2e::running_config(&[]), faults: vec![], fail_connections: fail, ephemeral_name: "bgpfu".into(), chunk: 0 };
+    let slow_commit: Vec<(usize, u64)> = slow.iter().map(|(c, virt_s)| (*c, (virt_s / k * 1000.0) as u64)).collect();
+    let script = Script { running: e2e::running_config(&[]), faults: vec![], fail_connections: fail, ephemeral_name: "bgpfu".into(), chunk: 0, slow_commit };
     let res = rt.block_on(async {
         let j = FakeJunos::start(script, Config::default()).await.map_err(|e| format!("junos: {e}"))?;
         let mut cmd = tokio::process::Command::new(e2e::agent_bin());
@@ -721,9 +724,10 @@ fn run_daemon(k: f64, period: u64, outcomes: &[bool], signals: &[(f64, i32)], en
         let err = tokio::time::timeout(Duration::from_secs(2), err_task).await.ok().and_then(Result::ok).unwrap_or_default();
         let stderr = String::from_utf8_lossy(&err).into_owned();
         let accepts: Vec<f64> = j.shared.lock().unwrap().sessions.iter().map(|s| virt(s.0 as f64)).collect();
+        let closes: Vec<Option<f64>> = j.shared.lock().unwrap().sessions.iter().map(|s| s.1.map(|c| virt(c as f64))).collect();
         j.stop();
         let logged: Vec<u64> = stderr.lines().filter_map(|l| l.split("trying in ").nth(1)).filter_map(|r| r.split(' ').next()).filter_map(|n| n.parse().ok()).collect();
-        Ok(DaemonObs { accepts, logged_delays: logged, exit, exit_at, signals: sent, stderr, overshoot_ms: overshoot })
+        Ok(DaemonObs { accepts, closes, logged_delays: logged, exit, exit_at, signals: sent, stderr, overshoot_ms: overshoot })
     });
     irr.stop();
     res
@@ -748,13 +752,16 @@ pub fn run_c19(cfg: &Cfg) -> i32 {
         signals: Vec<(f64, i32)>,
         end: f64,
         name: &'static str,
+        slow: Vec<(usize, f64)>,
     }
     let mut scs: Vec<Sc> = vec![
         // enough consecutive failures for the doubling to reach (and have to respect) the cap
-        Sc { period: 300, outcomes: vec![false, false, false, false, false, true, false], signals: vec![], end: 60.0 + 120.0 + 240.0 + 300.0 + 300.0 + 300.0 + 60.0 + 30.0, name: "p300:FFFFFSF" },
-        Sc { period: 90, outcomes: vec![false, false, false, true, false], signals: vec![], end: 60.0 + 90.0 + 90.0 + 90.0 + 60.0 + 30.0, name: "p90:FFFSF" },
-        Sc { period: 300, outcomes: vec![true, true], signals: vec![(100.0, libc::SIGHUP), (250.0, libc::SIGTERM)], end: 400.0, name: "p300:S+SIGHUP@100+SIGTERM@250" },
-        Sc { period: 0, outcomes: vec![true], signals: vec![], end: 200.0, name: "p0:one-shot" },
+        Sc { period: 300, outcomes: vec![false, false, false, false, false, true, false], signals: vec![], end: 60.0 + 120.0 + 240.0 + 300.0 + 300.0 + 300.0 + 60.0 + 30.0, name: "p300:FFFFFSF", slow: vec![] },
+        Sc { period: 90, outcomes: vec![false, false, false, true, false], signals: vec![], end: 60.0 + 90.0 + 90.0 + 90.0 + 60.0 + 30.0, name: "p90:FFFSF", slow: vec![] },
+        // a successful run that lasts longer than the period: the period must be measured from its end
+        Sc { period: 60, outcomes: vec![true, true, true, true], signals: vec![], end: 150.0 + 60.0 * 3.0 + 40.0, name: "p60:S(slow,150s)SSS", slow: vec![(0, 150.0)] },
+        Sc { period: 300, outcomes: vec![true, true], signals: vec![(100.0, libc::SIGHUP), (250.0, libc::SIGTERM)], end: 400.0, name: "p300:S+SIGHUP@100+SIGTERM@250", slow: vec![] },
+        Sc { period: 0, outcomes: vec![true], signals: vec![], end: 200.0, name: "p0:one-shot", slow: vec![] },
     ];
     if cfg.thorough() {
         for (period, name) in [(30u64, "p30:FFFSF"), (60, "p60:FFFSF"), (100, "p100:FFFFSF"), (150, "p150:FFFFF"), (1000, "p1000:FFFFFFF"), (3600, "p3600:FFFFFFFFF")] {
@@ -771,11 +778,12 @@ pub fn run_c19(cfg: &Cfg) -> i32 {
                 end += if *o { period as f64 } else { b };
                 b = if *o { 60.0 } else { (b * 2.0).min(period as f64) };
             }
-            scs.push(Sc { period, outcomes, signals: vec![], end: end + 30.0, name });
+            scs.push(Sc { period, outcomes, signals: vec![], end: end + 30.0, name, slow: vec![] });
         }
-        scs.push(Sc { period: 300, outcomes: vec![false, false], signals: vec![(30.0, libc::SIGHUP), (100.0, libc::SIGINT)], end: 300.0, name: "p300:F+SIGHUP@30(in backoff)+SIGINT@100" });
-        scs.push(Sc { period: 120, outcomes: vec![true, false, true], signals: vec![(50.0, libc::SIGHUP), (60.0, libc::SIGHUP)], end: 400.0, name: "p120:S+2xSIGHUP" });
-        scs.push(Sc { period: 300, outcomes: vec![false], signals: vec![(10.0, libc::SIGTERM)], end: 200.0, name: "p300:F+SIGTERM@10" });
+        scs.push(Sc { period: 300, outcomes: vec![false, false], signals: vec![(30.0, libc::SIGHUP), (100.0, libc::SIGINT)], end: 300.0, name: "p300:F+SIGHUP@30(in backoff)+SIGINT@100", slow: vec![] });
+        scs.push(Sc { period: 120, outcomes: vec![true, false, true], signals: vec![(50.0, libc::SIGHUP), (60.0, libc::SIGHUP)], end: 400.0, name: "p120:S+2xSIGHUP", slow: vec![] });
+        scs.push(Sc { period: 100, outcomes: vec![true, false, true, true], signals: vec![], end: 260.0 + 60.0 + 100.0 + 100.0 + 40.0, name: "p100:S(slow,260s)FSS", slow: vec![(0, 260.0)] });
+        scs.push(Sc { period: 300, outcomes: vec![false], signals: vec![(10.0, libc::SIGTERM)], end: 200.0, name: "p300:F+SIGTERM@10", slow: vec![] });
     }
     let scs: Vec<Sc> = scs.into_iter().enumerate().filter(|(i, _)| (*i as u64) % cfg.shards == cfg.shard).map(|(_, s)| s).collect();
     // run the scenarios 4 at a time (each has its own runtime, fake Junos, fake IRRd and daemon)
@@ -784,12 +792,12 @@ pub fn run_c19(cfg: &Cfg) -> i32 {
         let handles: Vec<_> = chunk
             .iter()
             .map(|&i| {
-                let (period, outcomes, signals, end) = (scs[i].period, scs[i].outcomes.clone(), scs[i].signals.clone(), scs[i].end);
+                let (period, outcomes, signals, end, slow) = (scs[i].period, scs[i].outcomes.clone(), scs[i].signals.clone(), scs[i].end, scs[i].slow.clone());
                 std::thread::spawn(move || {
                     let mut k = 120.0;
                     let mut reruns = 0u64;
                     loop {
-                        match run_daemon(k, period, &outcomes, &signals, end) {
+                        match run_daemon(k, period, &outcomes, &signals, end, &slow) {
                             Ok(o) if o.overshoot_ms > 20.0 && k > 10.0 => {
                                 reruns += 1;
                                 k = if k > 30.0 { 30.0 } else { 10.0 };
@@ -825,7 +833,7 @@ pub fn run_c19(cfg: &Cfg) -> i32 {
             continue;
         }
         let tol = |x: f64| (x * 0.05).max(5.0);
-        let wit = |extra: Value| json!({"scenario": sc.name, "period": sc.period, "K": k, "accepts_virtual_s": o.accepts.iter().map(|a| (a * 10.0).round() / 10.0).collect::<Vec<_>>(), "logged_delays": o.logged_delays,
+        let wit = |extra: Value| json!({"scenario": sc.name, "period": sc.period, "K": k, "accepts_virtual_s": o.accepts.iter().map(|a| (a * 10.0).round() / 10.0).collect::<Vec<_>>(), "session_ends_virtual_s": o.closes.iter().map(|c| c.map(|a| (a * 10.0).round() / 10.0)).collect::<Vec<_>>(), "logged_delays": o.logged_delays,
             "signals_sent": o.signals, "exit": o.exit, "exit_at_virtual_s": o.exit_at, "stderr_tail": clip(&o.stderr.lines().rev().take(8).collect::<Vec<_>>().join(" | "), 900), "observed": extra});
         let mut problems: Vec<(String, String)> = Vec::new();
         if sc.period == 0 {
@@ -843,7 +851,8 @@ pub fn run_c19(cfg: &Cfg) -> i32 {
             let mut consecutive_failures = 0;
             let sig_times: Vec<f64> = o.signals.iter().map(|s| s.1).collect();
             for w in 0..o.accepts.len().saturating_sub(1) {
-                let gap = o.accepts[w + 1] - o.accepts[w];
+                // delays are measured from the END of run w (its session closing) to the start of run w+1
+                let gap = o.accepts[w + 1] - o.closes.get(w).copied().flatten().unwrap_or(o.accepts[w]);
                 let succeeded = sc.outcomes.get(w).copied().unwrap_or(false);
                 let sig_between = sig_times.iter().any(|t| *t >= o.accepts[w] - 1.0 && *t <= o.accepts[w + 1] + 1.0);
                 let expected = if succeeded { sc.period as f64 } else { backoff };
